@@ -370,6 +370,9 @@ func (v *AVCDecoderConfigurationRecord) UnmarshalBinary(data []byte) error {
 	v.LengthSizeMinusOne = uint8(b[4]) & 0x03
 	b = b[5:]
 
+	// The decoded parameter sets replace the ones a reused record held.
+	v.SequenceParameterSetNALUnits, v.PictureParameterSetNALUnits = nil, nil
+
 	numOfSequenceParameterSets := uint8(b[0]) & 0x1f
 	b = b[1:]
 	for i := 0; i < int(numOfSequenceParameterSets); i++ {
@@ -450,6 +453,8 @@ func (v *AVCSample) MarshalBinary() ([]byte, error) {
 
 func (v *AVCSample) UnmarshalBinary(data []byte) error {
 	sizeOfNALU := int(v.lengthSizeMinusOne) + 1
+	// The decoded NAL units replace the ones a reused sample held.
+	v.NALUs = nil
 	for b := data; len(b) > 0; {
 		if len(b) < sizeOfNALU {
 			return errors.Errorf("requires %v+ only %v bytes", sizeOfNALU, len(b))
